@@ -21,3 +21,9 @@ st = SymbolTable(); st['A'] = SymbolAttributes(BasicType.INTEGER)
 t("SymbolTable: 'A' in st", lambda: 'A' in st)
 t("SymbolTable.pop('A')", lambda: st.pop('A'))
 t("del SymbolTable['A']", lambda: st.__delitem__('A'))
+# R4: clone() of a table whose parent is (still) empty drops the parent
+parent = SymbolTable(); child = SymbolTable(parent=parent)
+clone = child.clone()
+parent['x'] = SymbolAttributes(BasicType.REAL)
+t("child.lookup('x') through empty-at-clone-time parent", lambda: child.lookup('x'))
+t("child.clone().lookup('x')  (parent dropped by clone)", lambda: clone.lookup('x'))
